@@ -567,7 +567,7 @@ def gen_term(tape, sort, depth, ctx):
             w1 = tape.rint(1, w - 1, "bv.concat.w1")
             return ["concat", gen_term(tape, BV(w1), d, ctx), gen_term(tape, BV(w - w1), d, ctx)]
         if k == "ext":
-            kx = tape.rint(1, w - 1, "bv.ext.k")
+            kx = tape.rint(0, w - 1, "bv.ext.k")      # 0: the degenerate extension is still a ZEXT / SEXT node
             return [tape.choice(("zext", "sext"), "bv.ext"), kx, gen_term(tape, BV(w - kx), d, ctx)]
         if k == "comp":
             ws = ctx.bv_widths() or [1]
